@@ -62,7 +62,7 @@ type lexResult struct {
 func safeLex(in string, flags int) (r lexResult) {
 	defer func() {
 		if x := recover(); x != nil {
-			r.Panic = fmt.Sprint(x)
+			r = lexResult{Steps: [][]int{}, Toks: []tokJ{}, Panic: fmt.Sprint(x)}
 		}
 	}()
 	steps, end, overrun := lib.VerifSQLiLex(in, flags, 0)
@@ -94,7 +94,7 @@ type passResult struct {
 func safePass(in string, flags int) (r passResult) {
 	defer func() {
 		if x := recover(); x != nil {
-			r.Panic = fmt.Sprint(x)
+			r = passResult{Flags: flags, Fp: []int{}, Toks: []tokJ{}, Panic: fmt.Sprint(x)}
 		}
 	}()
 	p := lib.VerifSQLiPass(in, flags)
@@ -178,6 +178,7 @@ func cmdSQLiRecord(args []string) int {
 	w, done := openOut(args[1])
 	defer done()
 	withFold := !(len(args) > 2 && args[2] == "nofold")
+	lexOnly := len(args) > 2 && args[2] == "lexonly"
 	for sc.Scan() {
 		var il inputLine
 		if err := json.Unmarshal(sc.Bytes(), &il); err != nil {
@@ -200,6 +201,9 @@ func cmdSQLiRecord(args []string) int {
 				}
 				fmt.Fprintf(w, "{\"ev\":\"lexend\",\"end\":%d,\"overrun\":%v}\n", lr.End, lr.Overrun)
 			}
+			if lexOnly {
+				continue
+			}
 			pr := safePass(in, fl)
 			if pr.Panic != "" {
 				writeJSON(w, map[string]interface{}{"ev": "panic", "where": "pass", "msg": pr.Panic})
@@ -207,7 +211,7 @@ func cmdSQLiRecord(args []string) int {
 				writeJSON(w, map[string]interface{}{"ev": "pass", "r": pr})
 			}
 		}
-		if il.Mode == nil {
+		if il.Mode == nil && !lexOnly {
 			ar := callSQLi(in, withFold)
 			fmt.Fprintf(w, "{\"ev\":\"api.begin\"}\n")
 			for _, e := range ar.Events {
@@ -426,18 +430,30 @@ func cmdSQLiModes(args []string) int {
 		}
 		in := i2b(il.In)
 		ar := callSQLi(in, false)
-		out := map[string]interface{}{"sqli": ar.Sqli, "fp": ar.Fp, "panic": ar.Panic}
-		var passes []apiEvent
+		chk := il.Tag
+		if chk == "" {
+			chk = "both"
+		}
+		out := map[string]interface{}{"ev": "api", "in": il.In, "check": chk, "sqli": ar.Sqli, "fp": ar.Fp, "panic": ar.Panic}
+		if ar.Fp == nil {
+			out["fp"] = []int{}
+		}
+		passes := []map[string]interface{}{}
 		for _, e := range ar.Events {
 			if e.Ev == "api.passend" {
-				passes = append(passes, e)
+				passes = append(passes, map[string]interface{}{"flags": e.Flags, "fp": e.Fp, "ddx": e.DDX, "hash": e.Hash,
+					"ntok": e.NTok, "folds": e.Folds})
 			}
 		}
 		out["passes"] = passes
 		modes := map[string]passResult{}
 		lex := map[string]lexResult{}
 		for _, fl := range allFlags {
-			modes[fmt.Sprint(fl)] = safePass(in, fl)
+			pr := safePass(in, fl)
+			if pr.Panic != "" && out["panic"] == "" {
+				out["panic"] = pr.Panic
+			}
+			modes[fmt.Sprint(fl)] = pr
 			if wantLex {
 				lex[fmt.Sprint(fl)] = safeLex(in, fl)
 			}
